@@ -60,6 +60,22 @@ CONFIG = {
              "not JSON, empty body, array, empty session); update with session / right / wrong old password / both / neither / upgrade-only form; "
              "per request: status, presence of a list, session handed out, byte-level store snapshot; non-trivial = every sequence; distinct = distinct sequence terms",
     ),
+    "C17": dict(
+        drivers=[("cmd/whawty-auth", "main")], run="C17", shard=200, timeout=900, header="From Whawty Require Import Policy.",
+        rule="(1) ~190 policy type / condition strings (valid, permuted, wrong operator, overflow, signs, hex, extra fields, tabs and newlines, non-ASCII space, unknown kinds) through NewPasswordPolicy, "
+             "the chosen comparator identified by probing it; (2) the three comparators at 18 thresholds x 17 passwords against the values the harness gets from zxcvbn itself (exact mantissa/exponent); "
+             "(3) every write path - Store interface add/update/init, web API add and update by an admin, update by the user with a session and with the old password, the local hash upgrade - "
+             "with 8 candidate passwords around three policies, store snapshot before/after; (4) agent start with unparsable policies; "
+             "non-trivial = every case; distinct = distinct case terms",
+    ),
+    "C19": dict(
+        drivers=[("cmd/whawty-auth", "main")], run="C19", shard=100, timeout=1200, header="From Whawty Require Import Hooks.",
+        rule="HooksCaller.run started in-package with a 300 ms rate limit and hook scripts that log time, argv and WHAWTY_AUTH_STORE: 12 (thorough 72) notification patterns "
+             "(0, 1, 2, many per interval, next interval, several intervals) compared with the rounds of the loop model (patterns near a timer edge accept both interleavings); a store switch; "
+             "30 (thorough 300) generated hooks directories (hidden names, every interesting mode, regular files, symlinks, directories, fifos; directory modes incl. world-writable) - the set of hooks "
+             "that actually ran compared with the eligibility model; through the agent: failed and read-only operations start nothing, a successful add starts a round, a hanging hook delays nobody; "
+             "non-trivial = every case with a notification; distinct = distinct case terms",
+    ),
     "C10": dict(
         drivers=[("cmd/whawty-auth", "main")], run="C10", shard=50, timeout=900,
         rule="(a) cap() of every request channel and of the hooks channels, and the aliasing of the upgrade channel, read in-process and compared with the facts tools/facts extracted "
